@@ -109,5 +109,11 @@ def run(ctx, report: Report) -> None:
     from .sem import identity_table
     identity_table(ctx, r3)
 
+    # ---- R5 (the whole pipeline by interpretation, bounded) --------------------------------------------------------------
+    r5 = report.rule('C03-R5', 'select / iselect / select_one / limit / filter / closest agree with match() element by element (bounded)', floor=5)
+    from .e2ematch import api_consistency_table
+    api_consistency_table(ctx, r5, deep=(ctx.tier == 'thorough'))
+
+
 
 
